@@ -28,8 +28,8 @@ from nverif.engine import Prop, Violation
 from nverif.oracle import stepmodel as sm
 
 U = 2.0 ** -52
-T_REAL = 16.0        # ulp; real ratio: one pow (< 1 ulp) and one multiplication (worst seen: evidence)
-T_SPIRAL = 16.0      # ulp per (1 + |k|): complex ratio exp(1j*dtheta)*r raised to the power k
+T_REAL = 16.0        # ulp; real ratio: one pow (< 1 ulp) and one multiplication (worst seen 1.38)
+T_SPIRAL = 40.0      # ulp per (1 + |k|): complex ratio exp(1j*dtheta)*r raised to the power k (worst seen 3.05)
 B_SLACK = 8.0        # ulp of slack when the recovered base step is compared with its interval
 METHODS = sm.METHODS
 
@@ -195,10 +195,10 @@ def compare(res, steps, ctx, label):
         raise Violation('finite', '%s yields a non-finite step' % label)
     if np.iscomplexobj(arr) and not res.spiral and np.any(arr.imag != 0):
         raise Violation('structure', '%s yields complex steps on a radial path' % label)
-    mag = np.abs(arr)
+    mag = np.abs(arr)[:, np.broadcast_to(res.b_hi > 0, shape)]       # elements documented non-zero
     if N > 1 and not np.all(mag[:-1] > mag[1:]):
         raise Violation('decreasing', '%s: magnitudes are not strictly decreasing: first steps %s'
-                        % (label, mag.reshape(N, -1)[:3, 0].tolist()))
+                        % (label, mag[:3, :1].ravel().tolist()))
     exps = res.exponents(N)
     powers = [sm.exact_power(res.ratio, k) for k in exps]
     rr = res.real_ratio
